@@ -318,6 +318,7 @@ package ro
 //@ func NewSafeObservable$1
 //@   props C01 C09
 //@   binds destination subscribe
+//@   calls fn:subscribe
 //@   track callfn.subscribe
 //@   ensures [adapter-hands-the-destination-over|C01] trace(callfn.subscribe(destination)) && result == res(callfn.subscribe)
 
